@@ -96,6 +96,25 @@ def r1(ctx):
         ctx.check(bad is None, "C01.R1", fi, u.ast,
                   "unauthenticated (CRC-only) message source must be unreachable when a key is set",
                   witness={"path_condition": [repr(l) for l in bad] + ["truthy(key)"]} if bad else None, line=u.lineno)
+    # no way out of from_bytes with a packet, under a key, that did not pass the decryption: with the normal completion of the
+    # decrypt statement(s) and the key-less outcome of every test of `key` removed, no return may remain reachable
+    auth_ids = {a.id for a in auth}
+
+    def keyed_edge(a, b, label):
+        if a.kind == "test" and a.ast is not None:
+            lits = cc.literal(a.ast, label == "T") if label in ("T", "F") else []
+            if any(l.kind == "truth" and l.subject == "key" and not l.positive for l in lits):
+                return False
+            if any(l.kind == "set" and l.subject == "key" and l.positive and l.values <= frozenset([repr(None), repr(b""), repr(0), repr(False)]) for l in lits):
+                return False
+        return True
+    reach = cfg.reachable(cfg.entry, skip_labels=("exc", "raise"), through_effect=auth_ids, edge_ok=keyed_edge)
+    rets = [n for n in cfg.stmts((ast.Return,)) if n.id in reach]
+    for r_ in rets:
+        ctx.violated("C01.R1", fi, r_.ast, "from_bytes returns under a key without the datagram having passed decrypt_gcm",
+                     witness={"path_condition": [norm(t) + ("" if pol else " is false") for (t, pol) in cfg.conditions_of(r_.id)]}, line=r_.lineno)
+    if not rets and auth:
+        ctx.holds("C01.R1", fi, "every return of from_bytes under a key is behind a completed decrypt_gcm", "edge cut: decrypt completion + key-less outcomes removed")
     # the key used for decryption is the parameter, and the call sites pass the connection's key
     for a in auth:
         call = [c for c in ast.walk(a.ast) if isinstance(c, ast.Call) and norm(c.func).endswith("decrypt_gcm")][0]
